@@ -53,6 +53,10 @@ class SplitSetup(Contract):
         t, k = z3.Ints('lb!t lb!k')
         H.assume(z3.ForAll([t], z3.And(lb(t) >= 0, lb(t) <= T), patterns=[lb(t)]))
         H.assume(z3.ForAll([t, k], z3.Implies(z3.And(k >= 0, k < T), (k < lb(t)) == (tpf(k) < t)), patterns=[z3.MultiPattern(lb(t), tpf(k))]))
+        # derived facts (lemmas C14.lemma.lb_is_monotone / block_of_the_whole_horizon, proved from the definition above)
+        t2 = z3.Int('lb!t2')
+        H.assume(z3.ForAll([t, t2], z3.Implies(t <= t2, lb(t) <= lb(t2)), patterns=[z3.MultiPattern(lb(t), lb(t2))]))
+        H.assume(z3.And(lb(g.get('start').t) == 0, lb(g.get('end').t) == T))
         old = Obj('Timegrid', __token__='grid held before the call')
         assets = [Obj('Asset', name=H.str('asset0'), timegrid=old), Obj('Asset', name=H.str('asset1'), timegrid=old)]
         self_obj = Obj('Portfolio', assets=assets, timegrid=old)
